@@ -445,6 +445,9 @@ def default_rule_real(ctx, rexe, vals):
         m = drv(ctx, f"stack 0 0 {e['pagesize']} {e['stackmin']} 1 {rl} 0\n").split()
         got = kv(outs[1], 3)["stack"]
         if m[1] != got:
+            if "dflt-real" in ctx.diff_ops:
+                continue
+            ctx.diff_ops.add("dflt-real")
             ctx.broken_correspondence("default_stack_rule vs real thread stack (pthread_getattr_np)",
                                       f"RLIMIT_STACK={v}: thread stack {got}, model {m[1]}")
             ctx.diff_ops.add("stack")
@@ -493,7 +496,7 @@ def run(ctx):
         ctx.sample({"scripted": [codes[20], st[5], st[-1], tw[3], tw[-1]]})
         ctx.notes["scripted_lines"] = {"codes": len(codes), "stack": len(st), "timedwait": len(tw)}
     if rexe:
-        prog = real_program(rng, ctx.scale(8, 24), ctx.scale(1500, 20000), ctx.scale(1, 3))
+        prog = real_program(rng, ctx.scale(8, 24), ctx.scale(6000, 20000), ctx.scale(1, 3))
         run_real(ctx, rexe, prog, "contention")
         for tmo, ms in ((U64 - 1, 50), (U64 - 1 - rng.below(10 ** 9), 30), (2 ** 63, 20), (3600 * NS, 20)):
             run_real(ctx, rexe, [f"longwait {tmo} {ms}"], "far deadline")
@@ -502,7 +505,7 @@ def run(ctx):
         default_rule_real(ctx, rexe, ["inf", 5, 8191, 16383, 16384, 20000, 1000000, 1048576, (4 << 20) + 4095, (16 << 20) + 1]
                           + [rng.below(1 << rng.range(10, 26)) for _ in range(ctx.scale(4, 30))])
         ctx.sample({"real": prog[:3] + sweep[:3]})
-        ctx.notes["real_threads_x_rounds"] = [ctx.scale(8, 24), ctx.scale(1500, 20000)]
+        ctx.notes["real_threads_x_rounds"] = [ctx.scale(8, 24), ctx.scale(6000, 20000)]
         if thorough:
             texe = ctx.harness("c20_real_tsan", ["harness/c20_threads.c"], variant="tsan", extra=["-DC20_REAL"])
             if texe:
